@@ -30,7 +30,7 @@ for d in sorted(os.listdir(S)):
         meta = {
             'id': d, 'kind': 'behaviour-preserving refactoring (must not be reported by any check)',
             'origin': 'independent sub-agent given only the repository in a scratch worktree and the instruction to refactor without changing behaviour (round %d)' % (
-                (lambda n: 3 if n <= 14 else 4 if n <= 22 else 5 if n <= 30 else 6 if n <= 38 else 7 if n <= 44 else 8 if n <= 52 else 9 if n <= 60 else 10 if n <= 68 else 11 if n <= 80 else 12 if n <= 88 else 13 if n <= 96 else 15 if n <= 104 else 16)(int(d.split('-R')[1]))),
+                (lambda n: 3 if n <= 14 else 4 if n <= 22 else 5 if n <= 30 else 6 if n <= 38 else 7 if n <= 44 else 8 if n <= 52 else 9 if n <= 60 else 10 if n <= 68 else 11 if n <= 80 else 12 if n <= 88 else 13 if n <= 96 else 15 if n <= 104 else 16 if n <= 112 else 17)(int(d.split('-R')[1]))),
             'confirmed_by_me': {'command': 'cargo test --workspace --no-fail-fast --offline in a scratch worktree with the patch applied (tools/verify_all_seeds.sh)', 'result': ver},
             'checks_run': 'tools/matrix.py (every registered quick check, scratch worktree via MTSA_REPO)',
             'reported_by': fired,
@@ -46,7 +46,7 @@ for d in sorted(os.listdir(S)):
         R9 = 'C04 C05 C06 C07 C09 C10 C12 C13 C14 C16 C17 C18'.split()
         R11 = 'C04 C05 C06 C07 C09 C10 C13 C16'.split()
         R16 = 'C02 C03 C11 C19'.split()
-        rnd = {'a': 1, 'b': 2, 'c': 3 if prop in R3 else 4, 'd': 5 if prop in R5 else 6, 'e': 7, 'f': 8, 'g': 9 if prop in R9 else 10, 'h': 11 if prop in R11 else 16 if prop in R16 else 14}.get(d[-1], 17) if d[0] == 'C' else 0
+        rnd = {'a': 1, 'b': 2, 'c': 3 if prop in R3 else 4, 'd': 5 if prop in R5 else 6, 'e': 7, 'f': 8, 'g': 9 if prop in R9 else 10, 'h': 11 if prop in R11 else 16 if prop in R16 else 14, 'i': 17}.get(d[-1], 18) if d[0] == 'C' else 0
         meta = {
             'id': d, 'breaks_property': prop,
             'origin': 'independent sub-agent given only the property text and a scratch worktree (round %d)' % rnd,
